@@ -96,7 +96,7 @@ func TestVerifC10Merkle(t *testing.T) {
 			leaf := append([]byte{}, items[i]...)
 			rh := append([]byte{}, rootHash...)
 			kind := ""
-			switch r.Intn(24) {
+			switch r.Intn(25) {
 			case 0:
 				kind = "genuine"
 			case 1:
@@ -186,6 +186,15 @@ func TestVerifC10Merkle(t *testing.T) {
 					j := r.Intn(len(prev))
 					p = cloneProof(pp[j])
 					leaf = append([]byte{}, prev[j]...)
+				}
+			case 24:
+				// a genuine proof presented with NO item (nil) or the empty item: the leaf hash in the
+				// proof is the hash of the real item, not of nothing
+				kind = "leaf-nil-or-empty"
+				if r.Bool() {
+					leaf = nil
+				} else {
+					leaf = []byte{}
 				}
 			case 22:
 				// the proof of the LAST leaf presented under index == total (and nearby): the path
